@@ -596,10 +596,6 @@ func checkCollector(c *Ctx, gc *ssa.Function) {
 			case a.Atom.Op == "phi" && !a.Atom.Cyc || a.Atom.Op == "phi":
 				// flag scan: flag := false; for each earlier hash { if h == hash { flag = true } }; keep iff !flag
 				flag := a.Atom
-				if !a.Neg {
-					st, why = broken, "a construct is kept when the 'already seen' flag is set (test inverted)"
-					continue
-				}
 				eqSeen := false
 				eachInstr(gc, func(i ssa.Instruction) {
 					if ifi, ok := i.(*ssa.If); ok {
@@ -611,6 +607,23 @@ func checkCollector(c *Ctx, gc *ssa.Function) {
 				})
 				if !eqSeen {
 					why = "no comparison of the construct's hash with every recorded hash found"
+					continue
+				}
+				// only a flag that is raised by that comparison is an 'already seen' flag; kept under it = inverted
+				if !a.Neg {
+					raisedOnEqual := false
+					if ph, ok := flag.V.(*ssa.Phi); ok {
+						for _, e := range ph.Edges {
+							if k, isC := e.(*ssa.Const); isC && k.Value != nil && k.Value.ExactString() == "true" {
+								raisedOnEqual = true
+							}
+						}
+					}
+					if raisedOnEqual {
+						st, why = broken, "a construct is kept when the 'already seen' flag is set (test inverted)"
+					} else {
+						why = "the flag the keep decision tests is not visibly the 'already seen' flag"
+					}
 					continue
 				}
 				// hashes are recorded with the construct
